@@ -35,6 +35,44 @@ def wrap(v, ty):
     return v
 
 
+def f64_of_bits(bits):
+    import struct
+    return struct.unpack("<d", struct.pack("<Q", bits & ((1 << 64) - 1)))[0]
+
+
+def float_to_int(v, ty):
+    """`as` from f64: truncate toward zero, saturate, NaN -> 0"""
+    b = INT_BITS[ty]
+    lo, hi = (-(1 << (b - 1)), (1 << (b - 1)) - 1) if ty.startswith("i") else (0, (1 << b) - 1)
+    if v != v:
+        return 0
+    if v == float("inf"):
+        return hi
+    if v == float("-inf"):
+        return lo
+    return max(lo, min(hi, int(v)))
+
+
+def float_binop(base, a, b):
+    """IEEE-754 binary64 (a Python float is one): the four operations and the six comparisons"""
+    if base == "Add":
+        return a + b
+    if base == "Sub":
+        return a - b
+    if base == "Mul":
+        return a * b
+    if base == "Div":
+        if b == 0.0:
+            if a == 0.0 or a != a:
+                return float("nan")
+            import math
+            return math.copysign(float("inf"), a) * math.copysign(1.0, b)
+        return a / b
+    if base in ("Lt", "Le", "Gt", "Ge", "Eq", "Ne"):
+        return 1 if {"Lt": a < b, "Le": a <= b, "Gt": a > b, "Ge": a >= b, "Eq": a == b, "Ne": a != b}[base] else 0
+    raise Undecidable("float binop %s" % base)
+
+
 class Interp:
     def __init__(self, F, max_steps=20000, depth=0):
         self.F = F
@@ -182,6 +220,10 @@ class Interp:
             return self.read_place(o["pl"])
         if k == "const":
             if "int" in o:
+                if o.get("ty") == "f64":
+                    return f64_of_bits(o["int"])
+                if o.get("ty") == "f32":
+                    raise Undecidable("f32 constant")
                 return o["int"]
             if "fn" in o:
                 return ("fn", o["fn"])
@@ -206,6 +248,10 @@ class Interp:
             if "item" in o:
                 c = self.F.consts.get(o["item"])
                 if c and "int" in c:
+                    if c.get("ty") == "f64":
+                        return f64_of_bits(c["int"])
+                    if c.get("ty") == "f32":
+                        raise Undecidable("f32 constant")
                     return c["int"]
                 if c and "bytes" in c:
                     return list(c["bytes"])
@@ -238,6 +284,10 @@ class Interp:
             v = self.operand(rv["op"])
             if rv["ck"] in ("IntToInt",):
                 return wrap(v, rv["ty"])
+            if rv["ck"] == "IntToFloat" and rv["ty"] == "f64" and isinstance(v, int):
+                return float(v)          # round-to-nearest-even, as `as f64`
+            if rv["ck"] == "FloatToInt" and isinstance(v, float) and rv["ty"] in INT_BITS:
+                return float_to_int(v, rv["ty"])
             if rv["ck"].startswith("PointerCoercion") or rv["ck"] in ("PtrToPtr", "Transmute"):
                 return v
             raise Undecidable("cast %s" % rv["ck"])
@@ -279,6 +329,8 @@ class Interp:
     def binop(self, op, a, b, ty):
         wo = op.endswith("WithOverflow")
         base = op[:-len("WithOverflow")] if wo else op
+        if isinstance(a, float) and isinstance(b, float) and ty == "f64":
+            return float_binop(base, a, b)
         if not isinstance(a, int) or not isinstance(b, int):
             raise Undecidable("binop on non-scalar")
         if base == "Add":
